@@ -1,17 +1,37 @@
 /-
 Model driver: one operation per input line, one result per output line.
 Core Lean only (no Mathlib, no BVDecide) so that it links as a `lean_exe`.
+Each property's commands live in Hts/Drv/<ID>.lean; the first handler that accepts a command answers.
 -/
+import Hts.Drv.C01
+import Hts.Drv.C02
+import Hts.Drv.C03
+import Hts.Drv.C04
+import Hts.Drv.C05
+import Hts.Drv.C06
+import Hts.Drv.C07
+import Hts.Drv.C08
+import Hts.Drv.C09
+import Hts.Drv.C10
+import Hts.Drv.C11
+import Hts.Drv.C12
+import Hts.Drv.C13
+import Hts.Drv.C14
+import Hts.Drv.C15
+import Hts.Drv.C16
+import Hts.Drv.C17
+import Hts.Drv.C18
+import Hts.Drv.C19
 import Hts.Drv.C20
+
+def handlers : List (String → List String → Option String) :=
+  [Hts.Drv.C01.handle, Hts.Drv.C02.handle, Hts.Drv.C03.handle, Hts.Drv.C04.handle, Hts.Drv.C05.handle, Hts.Drv.C06.handle, Hts.Drv.C07.handle, Hts.Drv.C08.handle, Hts.Drv.C09.handle, Hts.Drv.C10.handle, Hts.Drv.C11.handle, Hts.Drv.C12.handle, Hts.Drv.C13.handle, Hts.Drv.C14.handle, Hts.Drv.C15.handle, Hts.Drv.C16.handle, Hts.Drv.C17.handle, Hts.Drv.C18.handle, Hts.Drv.C19.handle, Hts.Drv.C20.handle]
 
 def dispatch (line : String) : String :=
   match (line.trimAscii.toString.splitOn " ").filter (· ≠ "") with
   | [] => "bad-op"
   | cmd :: args =>
-    let r :=
-      if cmd.startsWith "itf8." || cmd.startsWith "ltf8." then Hts.Drv.C20.handle cmd args
-      else none
-    match r with
+    match handlers.findSome? (fun h => h cmd args) with
     | some s => s
     | none => "bad-op"
 
